@@ -38,11 +38,20 @@ impl EnvConverter {
         for (name, val) in flds.iter() {
             if val.is_tuple() {
                 eprintln!("Skipping embedded tuple...");
-                return Ok(());
+                continue;
             }
             if let &Val::Empty = val.as_ref() {
                 eprintln!("Skipping empty variable: {}", name);
-                return Ok(());
+                continue;
+            }
+            match val.as_ref() {
+                // Values that produce no output must not leave a dangling `NAME=`
+                // behind that would merge with the next field.
+                Val::List(_) | Val::Env(_) | &Val::Constraint(_) => {
+                    self.write(val, w)?;
+                    continue;
+                }
+                _ => {}
             }
             write!(w, "{}=", name)?;
             self.write(val, w)?;
